@@ -162,3 +162,42 @@ def run(ctx):
     ctx.ob("C28.R2", E + ":ConstantExpressionEvaluator.eval_binop", "an operator without an entry is a diagnostic, not a KeyError", any("not in" in t and "op" in t for t in gtxt) and bool(look), construct="op-guard", detail=str(gtxt))
     ctx.ob("C28.R2", E + ":ConstantExpressionEvaluator.eval_binop", "division by a zero constant is a diagnostic, not ZeroDivisionError", any("== 0" in t for t in gtxt), construct="zero-guard", detail=str(gtxt))
     ctx.ob("C28.R2", E + ":ConstantExpressionEvaluator.eval_binop", "non-numeric operands (addresses) are a diagnostic, not TypeError", any("isinstance" in norm(g) for g in guards), construct="operand-guard")
+
+    _literal_range(ctx)
+
+
+def _literal_range(ctx):
+    """R4: an integer literal is compared against the limit of a type on every path that creates the typed literal node"""
+    from ..cfg import CFG
+    from ..cfg import header_exprs
+    S = "ppci/lang/c/semantics.py"
+    ctx.rule("C28.R4", "an integer literal reaches its typed node only after its value was compared with a type limit on that path (a literal that does not fit its type is a diagnostic; unchecked it ends in struct.error when the constant is packed)", floor=2)
+    fn = ctx.fn(S, "CSemantics.on_number")
+    site = S + ":CSemantics.on_number"
+    cfg = CFG(fn)
+    from .. import sym
+    env = sym.single_assign_env(fn)
+    rets = [n for n in walk_no_nested(fn) if isinstance(n, ast.Return) and n.value is not None and "NumericLiteral" in norm(n.value)]
+    ctx.need(rets, "on_number: construction of NumericLiteral not found")
+    for i, r in enumerate(rets):
+        call = [c for c in ast.walk(r.value) if isinstance(c, ast.Call) and norm(c.func).endswith("NumericLiteral")][0]
+        val = norm(call.args[0]) if call.args else "value"
+
+        def compares_limit(n, val=val):
+            if not isinstance(n, (ast.If, ast.While, ast.Assert)):
+                return False
+            for e in header_exprs(n):
+                for c in ast.walk(sym.deep_inline(e, {k: v for k, v in env.items() if k != val})):
+                    if isinstance(c, ast.Compare) and any("limit_max(" in norm(x) or "limit_min(" in norm(x) for x in [c.left] + c.comparators) and any(norm(x) == val for x in [c.left] + c.comparators):
+                        return True
+            return False
+        ctx.ob("C28.R4", site, "every path to `%s` compares `%s` with a limit_max(...)" % (" ".join(norm(r).split())[:60], val), cfg.must_pass(r, compares_limit), construct="literal-range:%d" % i, node=r)
+    # the comparison that ends in the diagnostic uses the limit of the type the literal gets
+    typ = None
+    for r in rets:
+        call = [c for c in ast.walk(r.value) if isinstance(c, ast.Call) and norm(c.func).endswith("NumericLiteral")][0]
+        if len(call.args) >= 2:
+            typ = norm(call.args[1])
+    diag = [n for n in walk_no_nested(fn) if isinstance(n, ast.If) and _is_diag(n.body)]
+    ok = any(("limit_max(%s)" % typ) in norm(sym.deep_inline(d.test, env)) for d in diag) if typ else False
+    ctx.ob("C28.R4", site, "the diagnostic compares against limit_max of the literal's own type `%s`" % typ, ok, construct="limit-of-own-type", detail=str([norm(d.test) for d in diag]))
